@@ -63,7 +63,7 @@ func runPath(p *program, cfg *runConfig, solver *Solver, entry *ssa.Function, pr
 		reached: map[string]bool{}, tags: map[string]string{}, funcs: map[string]bool{},
 		concCount: map[string]int{}, mstates: map[*value]*mstate{}, syncMaps: map[*value]*gmap{},
 		globals: map[*ssa.Global]*value{}, inited: map[*ssa.Package]bool{},
-		exitAck: make(chan struct{}),
+		exitAck: make(chan struct{}), known: map[*Term]bool{}, ubounds: map[*Term]uint64{},
 	}
 	mainG := &gor{id: 0, wake: make(chan struct{}), main: true}
 	ex.gors = []*gor{mainG}
@@ -99,7 +99,7 @@ func runPath(p *program, cfg *runConfig, solver *Solver, entry *ssa.Function, pr
 			}
 			finish(a)
 		case targetPanic:
-			msg := "unrecovered panic: " + panicText(ex, a)
+			msg := "unrecovered panic: " + panicText(ex, a) + " at" + ex.panicSite
 			if ex.violation == nil {
 				func() {
 					defer func() { recover() }()
@@ -245,7 +245,7 @@ func explore(p *program, cfg *runConfig, entry *ssa.Function) *harnessResult {
 			}
 			work = append(work, res.forks...)
 			if hr.Paths >= cfg.MaxPaths || (!cfg.Deadline.IsZero() && time.Now().After(cfg.Deadline)) {
-				if len(work) > 0 || inflight > 0 {
+				if (len(work) > 0 || inflight > 0) && !stopped {
 					hr.Inconclusive = appendUnique(hr.Inconclusive, fmt.Sprintf("exploration stopped after %d paths (budget); %d prefixes unexplored", hr.Paths, len(work)))
 				}
 				stopped = true
